@@ -29,6 +29,7 @@ type Options struct {
 	PanicIsViolation bool
 	Verbose     bool
 	IncTimeoutMs int   // timeout of the incremental solver before falling back to a fresh one-shot process
+	AssertGroup int    // obligations per solver query (default 6)
 	OnlyPrefix  string // development: run just this decision prefix
 	SMTLog      string
 }
@@ -404,13 +405,15 @@ type Run struct {
 	recovered int
 	solverDead bool
 	pending   []pendingAssert
+	purpose   string
+	pcSet     map[int]bool
 	stubs     map[string]int
 	bounds    map[string]string
 	blobLens  []*sym.Term
 }
 
 func newRun(ex *Explorer, se *session, prefix []Decision) *Run {
-	r := &Run{ex: ex, sp: se.sp, sess: se, names: map[int]string{}, prefix: prefix, defined: map[int]bool{}, funcs: map[string]int{}, stubs: map[string]int{}, bounds: map[string]string{}}
+	r := &Run{ex: ex, sp: se.sp, sess: se, names: map[int]string{}, pcSet: map[int]bool{}, prefix: prefix, defined: map[int]bool{}, funcs: map[string]int{}, stubs: map[string]int{}, bounds: map[string]string{}}
 	ctx := sym.NewCtx()
 	r.in = &Interp{P: ex.P, ctx: ctx, run: r, globals: map[*ssa.Global]Ptr{}}
 	return r
@@ -543,6 +546,18 @@ func (r *Run) addPC(t *sym.Term) {
 	if t.IsTrue() {
 		return
 	}
+	if t.Op == sym.OpAnd {
+		// conjunctions are asserted clause by clause so that a later
+		// obligation identical to an assumed clause is recognised as implied
+		for _, a := range t.Args {
+			r.addPC(a)
+		}
+		return
+	}
+	if r.pcSet[t.ID] {
+		return
+	}
+	r.pcSet[t.ID] = true
 	r.pc = append(r.pc, t)
 	n := r.name(t)
 	lvl := r.pos
@@ -581,7 +596,11 @@ func (r *Run) query(extra *sym.Term, wantModel bool) (map[string]uint64, solver.
 	en := r.name(extra)
 	r.sp.Send("(push 1)")
 	r.sp.Send("(assert " + en + ")")
+	t0 := time.Now()
 	res := r.sp.CheckSat()
+	if d := time.Since(t0).Seconds(); os.Getenv("VSYM_SLOW") != "" {
+		fmt.Fprintf(os.Stderr, "slow query %.3fs res=%v purpose=%s pc=%d\n", d, res, r.purpose, len(r.pc))
+	}
 	var m map[string]uint64
 	if res == solver.Sat && wantModel {
 		m = r.getModel(r.sp)
@@ -687,6 +706,7 @@ func (r *Run) captureModel() {
 			}
 		}
 	}()
+	r.purpose = "capture-model"
 	m, res := r.modelFor(r.smallBlobs())
 	if res != solver.Sat {
 		m, res = r.modelFor(r.in.ctx.T)
@@ -755,6 +775,17 @@ func (r *Run) Branch(c *sym.Term, site ssa.Instruction) bool {
 		r.addPC(ctx.Not(c))
 		return false
 	}
+	// a condition that is literally one of the path-condition clauses (or the
+	// negation of one) needs no solver call
+	if r.pcSet[c.ID] {
+		r.record(Decision{'b', 1})
+		return true
+	}
+	if nc := ctx.Not(c); r.pcSet[nc.ID] {
+		r.record(Decision{'b', 0})
+		return false
+	}
+	r.purpose = "branch " + r.in.siteStr(site)
 	rt := r.check(c)
 	if rt == solver.Unknown {
 		r.solverUnknown("branch feasibility unknown at " + r.in.siteStr(site))
@@ -821,7 +852,11 @@ func (r *Run) Concretize(t *sym.Term, site ssa.Instruction) uint64 {
 		res := r.sp.CheckSat()
 		if res == solver.Unknown {
 			r.sp.Send("(pop 1)")
-			r.solverUnknown("value enumeration unknown at " + r.in.siteStr(site))
+			if r.sp.ErrMsg != "" {
+				r.solverUnknown("value enumeration unknown at " + r.in.siteStr(site))
+			}
+			vals = r.freshEnumerate(t, site)
+			goto enumerated
 		}
 		if res == solver.Unsat {
 			break
@@ -840,6 +875,7 @@ func (r *Run) Concretize(t *sym.Term, site ssa.Instruction) uint64 {
 		r.sp.Send(fmt.Sprintf("(assert (not (= %s (_ bv%d %d))))", tn, v, t.W))
 	}
 	r.sp.Send("(pop 1)")
+enumerated:
 	if len(vals) == 0 {
 		panic(&runAbort{kind: "assume", msg: "infeasible at concretize"})
 	}
@@ -852,6 +888,28 @@ func (r *Run) Concretize(t *sym.Term, site ssa.Instruction) uint64 {
 	return vals[0]
 }
 
+// freshEnumerate enumerates the feasible values of t in a fresh solver process.
+func (r *Run) freshEnumerate(t *sym.Term, site ssa.Instruction) []uint64 {
+	var vals []uint64
+	c := r.in.ctx
+	block := c.T
+	for {
+		m, res := r.freshQuery(block, true)
+		if res == solver.Unknown {
+			r.solverUnknown("value enumeration unknown at " + r.in.siteStr(site))
+		}
+		if res == solver.Unsat {
+			return vals
+		}
+		v := sym.Eval(t, m, map[int]uint64{})
+		vals = append(vals, v)
+		if len(vals) > maxConcretize {
+			panic(&runAbort{kind: "unsupported", msg: fmt.Sprintf("more than %d feasible concrete values at %s", maxConcretize, r.in.siteStr(site))})
+		}
+		block = c.And(block, c.Not(c.Eq(t, c.Const(v, t.W))))
+	}
+}
+
 // Assume adds c to the path condition; an infeasible assumption ends the run.
 func (r *Run) Assume(c *sym.Term) {
 	if c.IsTrue() {
@@ -862,6 +920,7 @@ func (r *Run) Assume(c *sym.Term) {
 		panic(&runAbort{kind: "assume", msg: "assume(false)"})
 	}
 	if !r.replaying() {
+		r.purpose = "assume"
 		res := r.check(c)
 		if res == solver.Unknown {
 			r.solverUnknown("assume feasibility unknown")
@@ -890,7 +949,8 @@ func (r *Run) Assert(c *sym.Term, label string, site ssa.Instruction) {
 		return
 	}
 	ss := r.in.siteStr(site)
-	if c.IsTrue() {
+	if c.IsTrue() || r.pcSet[c.ID] {
+		// folded to true, or syntactically one of the path-condition clauses
 		r.asserts = append(r.asserts, AssertRec{Label: label, Site: ss, Verdict: "trivially-true"})
 		return
 	}
@@ -905,6 +965,20 @@ func (r *Run) flushAsserts() {
 	}
 	pend := r.pending
 	r.pending = nil
+	group := r.ex.Opt.AssertGroup
+	if group <= 0 {
+		group = 1
+	}
+	for len(pend) > 0 {
+		n := min(group, len(pend))
+		r.flushGroup(pend[:n])
+		pend = pend[n:]
+	}
+}
+
+// flushGroup discharges a small group of obligations: their conjunction first
+// (one query when everything holds), one by one otherwise.
+func (r *Run) flushGroup(pend []pendingAssert) {
 	c := r.in.ctx
 	conds := make([]*sym.Term, len(pend))
 	for i, p := range pend {
@@ -927,6 +1001,7 @@ func (r *Run) flushAsserts() {
 			return
 		}
 	} else {
+		r.purpose = "assert:" + pend[0].label
 		if !conj.IsFalse() && r.check(c.Not(conj)) == solver.Unsat {
 			r.record(Decision{'e', 0})
 			all("proved")
@@ -940,6 +1015,7 @@ func (r *Run) flushAsserts() {
 }
 
 func (r *Run) assertNow(c *sym.Term, label string, ss string) {
+	r.purpose = "assert " + label
 	rec := AssertRec{Label: label, Site: ss}
 	switch {
 	case c.IsTrue():
